@@ -12,7 +12,9 @@ EXPLANATION = (
     "ar/od/cs/hp from the same-named Difficulty getter, mods from get_mods and clock_rate from get_clock_rate (R3); for each "
     "X in {ar, od, cs, hp} the private field written by the public setter X = the field overwritten from get_X = the field "
     "whose value reaches the public output X (and HitWindows.ar / od_great for ar / od), and no other attribute slot "
-    "reaches it (R4). Round trip, monotonicity, HR/EZ ordering are real analysis over a piecewise-linear map: NOT decided.")
+    "reaches it (R4); every HR/EZ-dependent scaling (arithmetic under a hr()/ez() test, a multiplication by od_ar_hp_multiplier(), or a call "
+    "of a helper / closure that does so to its argument) of a value read from slot X happens only where X.with_mods() is known to be false (R5: "
+    "necessary for 'a value given with with_mods=true is reported back unchanged'). Round trip, monotonicity, HR/EZ ordering are real analysis over a piecewise-linear map: NOT decided.")
 
 B = 'model::beatmap::attributes::BeatmapAttributesBuilder'
 ATTRS4 = ('ar', 'od', 'cs', 'hp')
@@ -184,5 +186,120 @@ def run(ctx):
                     'setter %s() writes `%s` = slot overwritten from Difficulty::get_%s = only attribute slot reaching %s' % (x, slot, x, label), setter.where(),
                     bad='attribute %s: setter writes `%s`, difficulty() overwrites %s from get_%s, %s reads %s — the three must be the same single slot'
                         % (x, slot, over, x, label, sorted(reads)))
+    r5_with_mods(ctx, F)
     ctx.not_decided('with_mods=true round trip, monotonicity of hit windows in OD/AR, inverse scaling with clock rate, HR/EZ ordering, '
                     'numeric equality of stored AR/OD with the builder output')
+
+
+# ---- R5: mod-dependent scaling of a slot value only under `!slot.with_mods()`
+import arms  # noqa: E402
+
+MUL = ('Mul', 'Div', 'MulWithOverflow', 'MulUnchecked')
+MOD_TESTS = ('hr', 'ez')
+MOD_FACTORS = ('od_ar_hp_multiplier',)
+
+
+def _has_param(v, k):
+    return any(n[0] == 'param' and n[1] == k for n in prov.walk(v, limit=600))
+
+
+def _mod_guarded(fn, bi):
+    for c, lab in arms.bool_facts(fn, bi):
+        for n in prov.walk(c, limit=60):
+            if n[0] == 'call' and n[1].get('name') in MOD_TESTS and 'GameMods' in (n[1].get('path') or ''):
+                return True
+    return False
+
+
+def _from_factor(v):
+    return any(n[0] == 'call' and n[1].get('name') in MOD_FACTORS for n in prov.walk(v, limit=200))
+
+
+def _callee_args(fn, bi, t, P):
+    """(callee path, {callee param index: value tree}) with the closure calling convention undone"""
+    p = t['func'].get('path') or ''
+    args = P.call_args(bi)
+    out = {}
+    if '{closure#' in p and len(args) == 2 and args[1][0] == 'agg' and args[1][1] == 'tuple':
+        out[1] = args[0]
+        items = args[1][-1]
+        for i, x in enumerate(items.values() if isinstance(items, dict) else items):
+            out[i + 2] = x
+    else:
+        for i, a in enumerate(args):
+            out[i + 1] = a
+    return p, out
+
+
+def scaling_sites(F, fn, scalers):
+    """[(bb, line, description, [operand trees that get scaled])] in fn"""
+    P = prov.prov_of(fn)
+    out = []
+    for bi, si, s_ in fn.assigns():
+        rv = s_['rv']
+        if rv['k'] == 'binop' and rv['op'] in MUL:
+            a, b = P.operand(rv['a'], bi, si), P.operand(rv['b'], bi, si)
+            if _from_factor(a) or _from_factor(b):
+                out.append((bi, s_.get('ln'), 'multiplication by od_ar_hp_multiplier()', [a, b]))
+            elif _mod_guarded(fn, bi):
+                out.append((bi, s_.get('ln'), '%s under a hr()/ez() test' % rv['op'], [a, b]))
+    for bi, t in fn.calls():
+        if not t['func'].get('local'):
+            continue
+        p, amap = _callee_args(fn, bi, t, P)
+        ks = scalers.get(p, ())
+        trees = [amap[k] for k in ks if k in amap]
+        if trees:
+            out.append((bi, t.get('ln'), 'call of %s, which scales its argument depending on HR/EZ' % p.split('::')[-1], trees))
+    return out
+
+
+def r5_with_mods(ctx, F):
+    # summaries: which parameters does a local function / closure scale depending on the mods (fixed point, 3 rounds)
+    cands = [f for f in F.fns if f.path.startswith('model::beatmap::attributes::')]
+    scalers = {}
+    for _ in range(3):
+        for g in cands:
+            nparams = 8
+            ks = set(scalers.get(g.path, ()))
+            for bi, ln, what, trees in scaling_sites(F, g, scalers):
+                for k in range(1, nparams):
+                    if any(_has_param(tr, k) for tr in trees):
+                        # a scaling of the builder itself (param 1 of build / hit_windows, env of a closure) is not a "scales its argument"
+                        if k == 1:
+                            continue
+                        ks.add(k)
+            if ks:
+                scalers[g.path] = tuple(sorted(ks))
+    n5 = 0
+    for name in ('build', 'hit_windows'):
+        if F.method(B, name, inherent_only=True) is None:
+            ctx.violation('C17-R5', 'anchor-missing:' + name, 'BeatmapAttributesBuilder::%s not found' % name)
+    for fn in cands:
+        short = fn.path.split('::')[-1] if '{closure' not in fn.path else '::'.join(fn.path.split('::')[-2:])
+        for bi, ln, what, trees in scaling_sites(F, fn, scalers):
+            slots = set()
+            for tr in trees:
+                for n in prov.walk(tr, limit=1500):
+                    if n[0] == 'call' and n[1].get('name') == 'value' and 'ModsDependentKind' in (n[1].get('path') or '') and n[2]:
+                        pp = as_param_path(n[2][0], through_calls=False)
+                        if pp is not None:
+                            slots.add(pp)
+            if not slots:
+                continue
+            ctx.saw(fn)
+            known_false = set()
+            for c, lab in arms.bool_facts(fn, bi):
+                c = prov.strip(c, names={'likely', 'unlikely'})
+                if lab == 'false' and c[0] == 'call' and c[1].get('name') == 'with_mods' and c[2]:
+                    pp = as_param_path(c[2][0], through_calls=False)
+                    if pp is not None:
+                        known_false.add(pp)
+            for pp in sorted(slots):
+                x = '.'.join(pp[1]) or 'self'
+                n5 += 1
+                ctx.require(pp in known_false, 'C17-R5', '%s:%s:%s' % (short, x, what.split(',')[0].split(' of ')[-1][:40]),
+                            '%s: %s of the %s slot only where its with_mods() is false' % (short, what, x), fn.where(ln),
+                            bad='%s applies a %s to the value of slot `%s` without `!%s.with_mods()` being established on that path: a value supplied '
+                                'with with_mods=true is scaled by HR/EZ again and is not reported back unchanged' % (short, what, x, x))
+    ctx.floor('C17-R5', n5, 4, 'HR/EZ-dependent scalings of attribute slots (today: hp, cs x2 in build; ar, od x2, mania od x2 in hit_windows)')
